@@ -145,7 +145,7 @@ def is_order_error_ctor(e, sc):
 def r1_funnel(run, w):
   R1 = run.rule("C06-R1", "dirty reads funnel into _recompute; inside an update loop it visits the "
                 "node with allow_evaluation=False; that visit scans every required row and raises "
-                "OrderError (cached first) for one that needs evaluation", floor=12)
+                "OrderError (cached first) for one that needs evaluation", floor=15)
   # (a) _use_node: every return before the _recompute call is one of the two accepted shortcuts
   un = w.fn("engine.Engine._use_node")
   ps = un.fi.params()
@@ -384,7 +384,7 @@ def _chain_in_loop(fn, loop, stmt):
 def r2_one_cell(run, w):
   R2 = run.rule("C06-R2", "_recompute_one_cell: after the user code returns, the cached order error "
                 "is checked before the result is returned; in the error branch the order error "
-                "wins over the user error and is reset when raised", floor=5)
+                "wins over the user error and is reset when raised", floor=8)
   fn = w.fn(ONE)
   cfg = fn.xcfg
   methods = fn.nodes_calling(lambda c, nm, f: isinstance(c.func, ast.Attribute) and
@@ -482,7 +482,7 @@ def walk_fn(fi):
 def r3_reorder(run, w, sc):
   R3 = run.rule("C06-R3", "_update_loop: on OrderError the interrupted item is re-pushed before "
                 "the dependency on a LIFO stack; the error's fields mean what the loop reads",
-                floor=7)
+                floor=8)
   fn = w.fn(LOOP)
   cfg = fn.xcfg
   p_items = fn.fi.params()[1]
@@ -608,7 +608,7 @@ def r3_reorder(run, w, sc):
 # ------------------------------------------------------------------------------------------
 def r4_lookups_first(run, w):
   R4 = run.rule("C06-R4", "_make_sorted_work_items schedules #lookup nodes before all others",
-                floor=2)
+                floor=4)
   fn = w.fn("engine.Engine._make_sorted_work_items")
   p = fn.fi.params()[1]
   sorts = [c for c in calls_in(fn.node.body) if dotted(c.func) == "sorted"]
@@ -682,7 +682,7 @@ def r4_lookups_first(run, w):
 # ------------------------------------------------------------------------------------------
 def r5_done_after_store(run, w, sc):
   R5 = run.rule("C06-R5", "a cell enters the done set only after its evaluation completed normally "
-                "and its value was stored", floor=3)
+                "and its value was stored", floor=4)
   fn = sc.fn
   cfg = fn.xcfg
   head = sc.head(cfg)
